@@ -334,6 +334,7 @@ func registerC01() {
 		id: "C01",
 		rule: "case = coordinator options + discovered set + explorer table + per-shard scripted reports/health for one cycle, executed R times (map order, random choice) through the real Coordinator.Run; " +
 			"directed families (two and three copies of one target in every state/scrape-count/load-order combination, next to out-of-sync holders; vanished targets; a tail shard whose targets fit the front shards for some first-fit orders only, 40 repetitions each; an unassigned target that fits only into shards with less than 1 % of free space) followed by seed-determined random cases; " +
+			"plus closed loops on engine E2 (48/1600): even ones with 11-13 simulated pods listed and scaled by the REAL Kubernetes managers over a client-go fake (pods created in shuffled order, targets on high ordinals, scale-down enabled in most), odd ones random fault-free workloads; orphan rule per cycle in which all shards were in sync: listed before, still discovered => listed by a remaining shard after; " +
 			"non-trivial = at least 2 shards and a discovered target reported by an in-sync shard; distinct = hash of the case with sizes bucketed",
 		judge: judgeC01, nDirect: nA + nB + nC + nD + nE, direct: direct,
 		nRandom: map[string]int{"quick": 20000, "thorough": 300000},
@@ -523,6 +524,7 @@ func registerC04() {
 	register(&propDef{
 		id: "C04",
 		rule: "same engine as C01 with boundary-biased loads; directed families force each placement path (first assignment first-fit and weighted, head relief at every threshold, process relief, scale-down emptying the tail, oversized targets, several placements on one destination) with load+size at limit-1/limit/limit+1; " +
+			"plus real-process cases (2/8, engine E7): estimates from the real explorer probing 80-130 KB bodies (several parser blocks), a process limit two targets fit under and three do not, one oversized target with few kept series; at every snapshot the farm's TRUE totals of the targets a shard lists stay below the limit; " +
 			"non-trivial = at least one placement observed or an oversized eligible target present; distinct = hash of the case with sizes bucketed",
 		judge: judgeC04, nDirect: nA + nB + nC + nD + nE + nF, direct: direct,
 		// real processes: the estimates come from the real explorer probing targets with bodies of several parser blocks
@@ -785,6 +787,7 @@ func registerC07() {
 		id: "C07",
 		rule: "same engine; directed list enumerates ALL tuples of shard kinds {loaded, idle-fresh, idle-expired, unready, out-of-sync, unreachable} over 1-4 positions x {no new target, small, fits only an empty shard, fits nowhere} x 5 (min,max) settings x max-idle-time {0, 30 min}; then random 1-5 shard cases; every ChangeScale argument of the cycle is judged, also against a sufficient condition for 'relief needs space' (a shard over the head threshold none of whose targets fits any other shard by the loads reported in the cycle: no request below the current count), with a directed family of two overloaded shards - one relievable, one not - next to an expired idle tail without room, and a family of expired idle tails behind a shard whose targets do not all fit the tightly packed front; " +
 			"plus closed-loop cases (E2: real sidecars, simulated StatefulSet) with max-idle-time 0 / 1000 h / 150-250 ms of real time: every shard the coordinator removes is judged against the harness clock - it was seen holding targets, or was created, at a known instant, so it can have been idle for at most the span since then (one-sided: load only lengthens the span); a third of them a directed sequence in which an idle tail shard receives a target in an update whose Prometheus reload fails / is dropped / loses its answer, more than max-idle-time passes and the target disappears again; " +
+			"the closed-loop family includes (k%8==5) 11-13 pods listed and scaled by the real Kubernetes managers with max-idle-time 150 ms under the removal monitor; " +
 			"non-trivial = at least one scale request observed in a case with 2+ shards or an idle shard; distinct = hash of the case with sizes bucketed",
 		judge: judgeC07, nDirect: nA + nB + nC, direct: direct,
 		nRandom: map[string]int{"quick": 10000, "thorough": 200000},
